@@ -39,6 +39,10 @@ def rt_part(prop, tier, seed):
         if c["n"] < res["cases"][str(g["first"]["case"])]["n"]:
             g["first"] = v
     cov = res["coverage"].get(prop, {"events": 0, "cases": 0})
+    if prop == "C19":
+        # the signature ascriptions are compile-time: every case that built has been checked
+        built = res["n_cases"] - len(res["failed"])
+        cov = {"events": built, "cases": built}
     # samples: up to three cases that bear on the property
     samples = []
     for cid, c in res["cases"].items():
